@@ -322,6 +322,10 @@ def diagnose(exp, got, text, history) -> str:
                     note += (f", the argument list written for construct #{other[0] + 1} of the same page "
                              "(constructs that differ only slightly must not share one cookie of the inside-out encoding)")
                 break
+    if not note:
+        ek, gk = ptree2.kinds(exp), ptree2.kinds(got)
+        if ek - gk:
+            note = f": no {', '.join(sorted(ek - gk))} node in the parsed tree (what was written as one stayed text or was absorbed elsewhere)"
     if history:
         try:
             with Scratch("c03d-") as d:
